@@ -2,7 +2,8 @@
 //!
 //! `Deserializer::from_str` records the text it is given (ghost) and iterates over the
 //! documents of the xtmodel token language (one per non-blank byte; b'!' fails when it is
-//! deserialized). The serializer writes tokens followed by a newline, as YAML documents end
+//! deserialized; a text without any document yields ONE void document that visits `none`, as the
+//! real crate's Loader does). The serializer writes tokens followed by a newline, as YAML documents end
 //! with one.
 #![allow(static_mut_refs)]
 use std::fmt;
@@ -40,13 +41,14 @@ pub struct Deserializer<'de> {
 	s: &'de [u8],
 	pos: usize,
 	doc: Option<u8>,
+	yielded: usize,
 }
 impl<'de> Deserializer<'de> {
 	pub fn from_str(s: &'de str) -> Self {
 		unsafe { ghost::DESERIALIZERS += 1 };
 		ghost::note_parser(3);
 		ghost::record_text(s.as_bytes());
-		Deserializer { s: s.as_bytes(), pos: 0, doc: None }
+		Deserializer { s: s.as_bytes(), pos: 0, doc: None, yielded: 0 }
 	}
 }
 impl<'de> Iterator for Deserializer<'de> {
@@ -56,11 +58,18 @@ impl<'de> Iterator for Deserializer<'de> {
 			self.pos += 1;
 		}
 		if self.pos >= self.s.len() {
+			// serde_yaml's Loader hands out ONE empty document for a stream that contains none (so that
+			// from_str::<()>("") works); deserializing it visits `none`
+			if self.yielded == 0 {
+				self.yielded = 1;
+				return Some(Deserializer { s: &[], pos: 0, doc: Some(xtmodel::VOID), yielded: 0 });
+			}
 			return None;
 		}
 		let t = self.s[self.pos];
 		self.pos += 1;
-		Some(Deserializer { s: &[], pos: 0, doc: Some(t) })
+		self.yielded += 1;
+		Some(Deserializer { s: &[], pos: 0, doc: Some(t), yielded: 0 })
 	}
 }
 impl<'de> serde::Deserializer<'de> for Deserializer<'de> {
@@ -73,7 +82,7 @@ impl<'de> serde::Deserializer<'de> for Deserializer<'de> {
 		};
 		match t {
 			Some(t) => serde::Deserializer::deserialize_any(TokDe::<Error>::new(t), v),
-			None => Err(Error::Syntax),
+			None => serde::Deserializer::deserialize_any(TokDe::<Error>::new(xtmodel::VOID), v),
 		}
 	}
 	serde::forward_to_deserialize_any! {
